@@ -409,6 +409,33 @@ func propC07(c *Ctx) {
 	propC07LockOrder(c, in)
 	propC07Div(c, an, funcs)
 
+	// ---------------------------------------------------------------- P7 lock balance
+	p7 := c.Rule("P7", "K2 pairing (lockset at exits)", "no path returns with a lock that the other returns of the function have released", 1)
+	nFns := 0
+	for _, fn := range c.P.Funcs {
+		if in[fn] {
+			nFns++
+		}
+	}
+	c.Ok(p7, "functions-compared", "", fmt.Sprintf("exit lock states compared across the returns of all %d module functions (%d of them in the inbound context)", len(c.P.Funcs), nFns))
+	balanceExceptions := map[string]string{
+		"(*tcp.ForwarderRequest).CreateEndpoint/leaked:tcp.endpoint.workMu@?": "lock hand-off, not a leak: createEndpointAndPerformHandshake returns a new endpoint with workMu held only on success, and startAcceptedLoop passes that ownership to the endpoint's protocol goroutine; the error returns never held it (the callee's summary is per class, not per outcome)",
+	}
+	for _, im := range c.Locks().ExitImbalances() {
+		kind := "released-on-some-returns-only"
+		msg := "an entry lock is released at this return but still held at others"
+		if im.Leaked {
+			kind = "leaked"
+			msg = "this return leaves " + im.Lock + " locked while the function's other returns have released it: the next acquirer (here: the packet-processing goroutine) blocks forever"
+		}
+		key := FuncName(im.Fn) + "/" + kind + ":" + im.Lock
+		if why, ok := balanceExceptions[key]; ok {
+			c.Assume(p7, key, c.pos(im.Ret), why)
+			continue
+		}
+		c.Bad(p7, key, c.pos(im.Ret), msg)
+	}
+
 	for k := range assumed {
 		if !usedAssumed[k] && !gen {
 			c.Note(p2, "unused-assumption:"+k, "", "assumed entry no longer matches an obligation")
